@@ -170,7 +170,7 @@ func (k *Keys) RuntimeDescriptor(ent int, o GenesisOptions) *registry.Runtime {
 			AllowedStragglers: 0,
 			RoundTimeout:      5,
 			MaxMessages:       8,
-			MinLiveRoundsForEvaluation: 2,
+			MinLiveRoundsForEvaluation: 1,
 			MinLiveRoundsPercent:       50,
 			MaxLivenessFailures:        1,
 		},
